@@ -1,0 +1,15 @@
+//go:build verif
+
+package renderer
+
+import "github.com/golang/geo/r2"
+
+// Verification hooks, only built with -tags verif.
+
+func VerifZigzagEncode(value int) uint32 { return zigzagEncode(value) }
+
+func VerifZigzagDecode(value uint32) int { return zigzagDecode(value) }
+
+func VerifReferenceDouglasPeuckerSimplify(points []r2.Point, epsilon float64) []r2.Point {
+	return referenceDouglasPeuckerSimplify(points, epsilon)
+}
